@@ -404,4 +404,5 @@ def run(ctx):
     C08.r14(ctx)  # a release reschedules only what a hold parked: a travelling message keeps its sampled delivery time
     from . import C03, C09
     C03.r3(ctx, C03.Typestate(ctx.w, C03.CELLS))   # what is in flight is dropped only by a partition (a repair / release loses nothing)
+    C09.r10(ctx)  # the datagram parked by readable() is the oldest one: it is handed out before anything still queued
     C09.r6(ctx)   # a datagram that arrived is never overwritten in the receive slot (it would never be seen, whatever its latency)
